@@ -332,11 +332,8 @@ def wrapper_returns_only_positive(db, rep, p, f, entry):
 
 
 
-def run(ctx):
-    db, rep = ctx.db, ctx.report
-    prog = db.program('qmail-smtpd')
-    # ---------------------------------------------------------------- 1. latch
-    r1 = rep.rule('C07.1-failure-latch', 'R-TYPESTATE', 'qmail.c: once the latch is set no byte reaches the envelope descriptor, nothing clears it, every failed write sets it, qmail_fail sets it')
+def latch_sites(db, rep, prog):
+    """qmail.c failure latch: per function and initial latch value (shared with C03, C05, C14: their refusals rely on it)"""
     H = LatchHooks()
     states = 0
     for name, bind in (('qmail_put', 'fde'), ('qmail_puts', 'fde'), ('qmail_from', 'fdm'), ('qmail_to', 'fde'), ('qmail_close', 'fde'), ('qmail_fail', 'fde')):
@@ -353,10 +350,20 @@ def run(ctx):
             eng.run(fn, st)
             states += eng.states
             rep.count_states(eng.states, eng.transitions)
-    for inst, (ok, where, detail, path) in sorted(H.sites.items()):
-        r1.check(ok, inst, where, detail, path)
     if H.events < 6:
         raise AnalysisBroken('qmail.c: fewer than 6 write events explored')
+    return dict(H.sites), states
+
+
+
+def run(ctx):
+    db, rep = ctx.db, ctx.report
+    prog = db.program('qmail-smtpd')
+    # ---------------------------------------------------------------- 1. latch
+    r1 = rep.rule('C07.1-failure-latch', 'R-TYPESTATE', 'qmail.c: once the latch is set no byte reaches the envelope descriptor, nothing clears it, every failed write sets it, qmail_fail sets it')
+    lsites, states = latch_sites(db, rep, prog)
+    for inst, (ok, where, detail, path) in sorted(lsites.items()):
+        r1.check(ok, inst, where, detail, path)
     r1.expect_min(10)
     # envelope terminator goes through qmail_put
     qc = prog.fn('qmail_close', 'qmail.c')
@@ -696,6 +703,15 @@ def run(ctx):
         r4.check(not late, '%s:request-read-completely-before-the-commit' % pname, closes_[0].where,
                  'after qmail_close() and before its verdict is written the daemon still reads from the client (%s): a disconnect or a framing error there leaves a queued message without acknowledgement, and the client sends it again' %
                  ', '.join(sorted({'%s() at line %d' % (y.callee, y.line) for y in late})))
+
+    # ---- the queue program commits only a complete envelope (qmail-queue side of "exactly it was queued")
+    from rules import C01
+    r8 = rep.rule('C07.8-queue-commit', 'R-TRANSDUCER', 'qmail-queue publishes todo/<n> only after the complete envelope F addr NUL (T addr NUL)* NUL was read (EOF, a wrong letter or an over-long address never commit), and exit 0 only through the commit')
+    qs = C01.queue_sites(db, rep)
+    for (rule_, inst), (ok, where, detail, path) in sorted(qs.items()):
+        if rule_ == 'C01.7-envelope-gate' or inst in ('return-0-only-after-commit', 'single-commit'):
+            r8.check(ok, inst, where, detail, path)
+    r8.expect_min(4)
 
     # ---------------------------------------------------------------- 6. disconnect
     r6 = rep.rule('C07.6-disconnect', 'R-GUARD', 'each daemon\'s read wrapper never returns <= 0 (EOF/error/timeout end the process) and reaches no qmail_close')
